@@ -79,3 +79,7 @@ func SymbolicTime() { panic("vf: engine intrinsic") }
 // real codec natively).
 func Enc(codec string, plain []byte) []byte        { panic("vf: engine intrinsic") }
 func Dec(codec string, enc []byte) ([]byte, bool) { panic("vf: engine intrinsic") }
+
+// TLSModel sets the outcome of TLS handshakes and the negotiated protocol in
+// the engine's crypto/tls model (no effect natively).
+func TLSModel(handshakeOK bool, negotiatedProtocol string) { panic("vf: engine intrinsic") }
